@@ -130,6 +130,8 @@ def gen_functions(ctx: Ctx) -> list[Fn]:
     per = ctx.pick(2, 5)
     for st, et in itertools.product(TYPES, TYPES):
         nvar = per if "lit" not in (st, et) else per + 1
+        if st == "lit" and et == "lit":
+            nvar = per * 4
         for _ in range(nvar):
             sval = evalue = 0
             if st == "lit":
@@ -263,7 +265,8 @@ def skeleton(fn_ir) -> str:
 
 
 # ------------------------------------------------------------------------------------------------ run
-def run(ctx: Ctx, pool) -> None:
+def run(ctx: Ctx, pool, col=None):
+    """two-phase (generator): everything up to the submitted C compile, `yield`, then the compiled runs"""
     fns = gen_functions(ctx)
     src = "from mypy_extensions import i64, i32, i16, u8\n\n" + "\n".join(f.source() for f in fns)
     d = os.path.join(ctx.tmp, "fr")
@@ -277,6 +280,8 @@ def run(ctx: Ctx, pool) -> None:
     if fr.modules is None:
         raise ToolFailure("range-loop module does not compile: %r %r" % (fr.errors[:3], fr.crash))
     irs = {f.name: f for f in fr.modules["c05fr"].functions}
+    if col is not None:
+        col.add_modules("range-loops", fr.modules)
     jobs = []
     cases = []
     for f in fns:
@@ -301,6 +306,7 @@ def run(ctx: Ctx, pool) -> None:
         ctx.count("traces_validated_against_impl")
         if mskel != rskel:
             skel_bad[f.name] = (mskel, rskel)
+    yield
     ok, log, secs = fut.result()
     if not ok:
         raise ToolFailure("mypyc could not compile the range-loop module:\n" + log[-2500:])
